@@ -18,7 +18,7 @@ def _terms_json(expr, subs):
     return out
 
 
-def after_loop(text, goals, subs=None, nmax=5, settings=None):
+def after_loop(text, goals, subs=None, nmax=5, settings=None, extras_var=None, extras_third=False, extras_budget=20):
     import sympy
     _reset_settings(settings)
     res = {"accepted": False, "goals": []}
@@ -84,5 +84,47 @@ def after_loop(text, goals, subs=None, nmax=5, settings=None):
             g["ok"] = False
             g["error"] = _err(e, "after_loop")
         res["goals"].append(g)
+    # central moment / cumulant goals after the loop for one variable (GoalsAction with --after_loop)
+    if extras_var:
+        import signal
+
+        class _Alarm(BaseException):
+            pass
+
+        def _on_alarm(signum, frame):
+            raise _Alarm()
+        old_handler = signal.signal(signal.SIGALRM, _on_alarm)
+        signal.alarm(int(extras_budget))          # sympy's limit_seq can take minutes on these; the main results must survive
+        try:
+            from cli.actions.goals_action import GoalsAction
+            from symengine.lib.symengine_wrapper import sympify as se
+            args2 = ArgumentParser().get_defaults()
+            args2.after_loop = True
+            ga = GoalsAction(args2)
+            ga.initialize_program(program, RecBuilder(program))
+            ex = {}
+            for kind, k in (("central", 2), ("cumulant", 2)) + ((("cumulant", 3), ("central", 3)) if extras_third else ()):
+                try:
+                    if kind == "central":
+                        val, exact = ga.handle_central_moment_goal((k, se(extras_var)))
+                    else:
+                        val, exact = ga.handle_cumulant_goal((k, se(extras_var)))
+                    v2 = sympy.sympify(val)
+                    if subs:
+                        v2 = v2.xreplace({s_: _rat(subs[s_.name]) for s_ in v2.free_symbols if s_.name in subs})
+                    if v2 in (sympy.oo, -sympy.oo, sympy.zoo):
+                        ex[f"{kind}{k}"] = ("infinite", str(v2))
+                    else:
+                        ex[f"{kind}{k}"] = to_rational(v2)
+                except Exception as e:  # noqa
+                    ex[f"{kind}{k}"] = ("error", _err(e, "after_loop_extra")["etype"])
+            res["extras"] = ex
+        except _Alarm:
+            res["extras_error"] = {"etype": "extras-timeout"}
+        except Exception as e:  # noqa
+            res["extras_error"] = _err(e, "extras")
+        finally:
+            signal.alarm(0)
+            signal.signal(signal.SIGALRM, old_handler)
     _reset_settings()
     return res
